@@ -53,6 +53,81 @@ def _arith_sig(fl, b, op, depth=0):
     return ("opaque", bb, j)
 
 
+def _cache_helper_mode(facts, rep, ev, fl, blocks, var, outfn):
+    """C15.C when the per-key cache is wrapped in a helper that receives the key and a closure computing the output"""
+    for hb_bb, t in ev.calls():
+        if hb_bb not in blocks:
+            continue
+        h = facts.bodies.get(callee_name(t) or "")
+        if h is None or h.kind == "closure" or h.file != ev.file:
+            continue
+        ents = [bb for bb, ht in h.calls() if (callee_name(ht) or "").endswith("::entry") and "HashMap" in (callee_name(ht) or "") and not h.is_cleanup(bb)]
+        news = [bb for bb, ht in h.calls() if callee_name(ht) == "random::Prf::new" and not h.is_cleanup(bb)]
+        if not ents or not news:
+            continue
+        hfl = Flow(facts, h)
+        # (1) the Prf is built from the key the entry is looked up with
+        ent_or = set()
+        for e in ents:
+            ent_or |= {o for o in hfl.origins(h.term(e)["args"][1], (e, None)) if o[0] != "const"}
+        key_params = {o[1] for o in ent_or if o[0] == "param"}
+        okk = bool(key_params)
+        for nb in news:
+            ko = {o for o in hfl.origins(h.term(nb)["args"][0], (nb, None)) if o[0] not in ("const", "agg")}
+            for o in ko:
+                if o[0] == "param" and o[1] in key_params:
+                    continue
+                if o[0] == "call" and o[2].endswith("::key") and "hash_map" in o[2] and len(ents) == 1 and \
+                        any((x[0] == "call" and x[1] in ents) or (x[0] == "param" and x[1] == 1)
+                            for x in hfl.origins(h.term(o[1])["args"][0], (o[1], None))):
+                    continue        # `e.key()` of the (single) entry looked up with the key parameter
+                if o[0] == "call" and o[1] in ents:
+                    continue
+                okk = False
+            if not ko:
+                okk = False
+        rep.ob("C15.C", "%s|cached-prf-keyed-by-its-key" % var, okk,
+               "in %s the cached Prf is built from the key the cache entry is looked up with" % h.id.split("::")[-1], h.loc(news[0]))
+        # (2) the computation handed in is applied on both the vacant and the occupied branch
+        cparams = [l for l in range(1, h.argc + 1) if not h.local_ty(l).startswith(("&", "std::vec::Vec")) and "Prf" not in h.local_ty(l)
+                   and l not in key_params and l != 1]
+        applied = [bb for bb, ht in h.calls() if not h.is_cleanup(bb) and (ht["f"].get("def") or "").startswith("std::ops::FnOnce::call_once")
+                   or (not h.is_cleanup(bb) and (ht["f"].get("def") or "") in ("std::ops::Fn::call", "std::ops::FnMut::call_mut"))]
+        rep.ob("C15.C", "%s|both-branches-evaluate" % var, len(applied) >= 2,
+               "the computation passed to %s is applied on the vacant and on the occupied branch (%d site(s))" % (h.id.split("::")[-1], len(applied)), h.loc())
+        # (3) the key handed to the helper is the bytes of dependency 0, and the closure evaluates the node's own (counter, type)
+        ka = [a for i, a in enumerate(t["args"]) if i + 1 in key_params]
+        kok = bool(ka) and all(any(o[0] == "param" and o[1] == 3 for o in fl.origins(a, (hb_bb, None))) for a in ka)
+        rep.ob("C15.C", "%s|key-is-dependency-bytes" % var, kok, "the key given to the cache helper derives from the node's key dependency", ev.loc(hb_bb))
+        good = False
+        for a in t["args"]:
+            if a[0] == "k" or "closure@" not in ev.local_ty(a[1][0]):
+                continue
+            for cb in facts.closures_of(ev.id):
+                if ("closure@%s:%d:" % (cb.file, cb.line)) not in ev.local_ty(a[1][0]):
+                    continue
+                cfl = Flow(facts, cb)
+                site = [(bb, j, rv) for bb, j, place, rv in ev.assigns() if rv[0] == "agg" and rv[1].get("k") == "closure" and rv[1].get("def") == cb.id]
+                for cbb, ct in cb.calls():
+                    if callee_name(ct) != outfn or cb.is_cleanup(cbb) or len(site) != 1:
+                        continue
+                    ok_args = True
+                    for arg in ct["args"][1:3]:
+                        for o in cfl.origins(arg, (cbb, None)):
+                            if o[0] != "upvar" or o[1] >= len(site[0][2][2]):
+                                ok_args = False
+                                continue
+                            po = fl.origins(site[0][2][2][o[1]], (site[0][0], site[0][1]))
+                            if not po or not all(x[0] == "call" and x[2] == "graphs::Node::get_operation" for x in po):
+                                ok_args = False
+                    good = good or ok_args
+        rep.ob("C15.C", "%s|args#0" % var, good,
+               "the closure handed to the cache helper evaluates %s at the node's own counter and output type" % outfn.split("::")[-1], ev.loc(hb_bb))
+        rep.ob("C15.C", "%s|anchors" % var, True, "Prf::new and cache entry found in the helper %s" % h.id.split("::")[-1], h.loc())
+        return True
+    return False
+
+
 def run(facts, rep, tier):
     rep.rule("C15.P", "the PRF is stateless: Prf has no field besides the AES key schedule; output_value/output_permutation only "
                       "read self; the PrfSession they use is created in the same call from the counter argument only")
@@ -179,6 +254,10 @@ def run(facts, rep, tier):
             news = [bb for bb, t in ev.calls() if bb in blocks and callee_name(t) == "random::Prf::new"]
             ents = [bb for bb, t in ev.calls() if bb in blocks and (callee_name(t) or "").endswith("::entry")
                     and "HashMap" in (callee_name(t) or "")]
+            if not ents and not news:
+                # the cache logic lives in a helper method: `self.evaluate_with_prf(key, |prf| prf.output_value(iv, t))`
+                if _cache_helper_mode(facts, rep, ev, fl, blocks, var, outfn):
+                    continue
             rep.ob("C15.C", "%s|both-branches-evaluate" % var, len(outs_) >= 2,
                    "the vacant and the occupied cache branch both call %s (%d site(s))" % (outfn.split("::")[-1], len(outs_)), ev.loc())
             for k, bb in enumerate(outs_):
